@@ -194,6 +194,7 @@ func runC05(c *Ctx) {
 	c.rule("R-HEAP-BIDIR", 1, "a slot overwritten at an arbitrary offset is followed by sift-down and (unless sift-down moved it, or the slot was cut off) by sift-up on all paths")
 	c.rule("R-HEAPIFY-COVER", 3, "each bulk heapify loop starts at or above the last internal node, steps -1 down to 0 inclusive, and sifts down the loop variable")
 	c.rule("R-YIELD", 1, "Queue.Each stops calling f once it returned false")
+	c.rule("R-SET-REPLACES", 2, "Set resizes the buffer to len(vs) and copies vs in on every path (contents are what was put in)")
 	m := buildHeapModel(c)
 	if m == nil {
 		return
@@ -563,6 +564,107 @@ func runC05(c *Ctx) {
 	}
 
 	ruleYield(c, []*ssa.Function{P.Func("heapq", "Queue", "Each")})
+
+	// ---- R-SET-REPLACES: Set discards the previous contents on every path
+	if set := P.Func("heapq", "Queue", "Set"); set != nil && len(set.Params) == 2 {
+		c.sawFn(fnName(set))
+		vs := set.Params[1]
+		isLenVs := func(v ssa.Value) bool {
+			ln, ok := isBuiltinCall(v, "len")
+			return ok && ln.Call.Args[0] == ssa.Value(vs)
+		}
+		emptyEdge := func(iff *ssa.If, i int) bool {
+			cm, ok := edgeCmp(iff, i)
+			if !ok {
+				return false
+			}
+			return (isLenVs(cm.X) && isConstInt(cm.Y, 0) && (cm.Op == token.EQL || cm.Op == token.LEQ)) || (isLenVs(cm.Y) && isConstInt(cm.X, 0) && cm.Op == token.EQL)
+		}
+		resize := func(in ssa.Instruction) bool {
+			st, ok := in.(*ssa.Store)
+			if !ok {
+				return false
+			}
+			fa, ok := st.Addr.(*ssa.FieldAddr)
+			if !ok {
+				return false
+			}
+			if _, f := fieldVarOf(fa); !sameField(f, m.dataF) {
+				return false
+			}
+			switch v := st.Val.(type) {
+			case *ssa.MakeSlice:
+				return isLenVs(v.Len)
+			case *ssa.Slice:
+				return v.Low == nil && v.High != nil && isLenVs(v.High)
+			case *ssa.Call:
+				// slices.Clone(vs) / append([]T(nil), vs...)
+				if ap, ok := isBuiltinCall(v, "append"); ok && isNilConst(ap.Call.Args[0]) && len(ap.Call.Args) == 2 && ap.Call.Args[1] == ssa.Value(vs) {
+					return true
+				}
+			}
+			return false
+		}
+		// every path to exit passes a resize to len(vs) — except that with len(vs)==0 a truncation to 0 is also a resize
+		resize0 := func(in ssa.Instruction) bool {
+			if resize(in) {
+				return true
+			}
+			st, ok := in.(*ssa.Store)
+			if !ok {
+				return false
+			}
+			fa, ok := st.Addr.(*ssa.FieldAddr)
+			if !ok {
+				return false
+			}
+			if _, f := fieldVarOf(fa); !sameField(f, m.dataF) {
+				return false
+			}
+			if sl, ok := st.Val.(*ssa.Slice); ok && sl.Low == nil && sl.High != nil && isConstInt(sl.High, 0) {
+				// only valid on a path where len(vs) == 0
+				for _, cm := range cmpsAt(in.Block()) {
+					if isLenVs(cm.X) && isConstInt(cm.Y, 0) && cm.Op == token.EQL {
+						return true
+					}
+				}
+			}
+			return isNilConst(st.Val) && func() bool {
+				for _, cm := range cmpsAt(in.Block()) {
+					if isLenVs(cm.X) && isConstInt(cm.Y, 0) && cm.Op == token.EQL {
+						return true
+					}
+				}
+				return false
+			}()
+		}
+		w := walkFromE(firstInstr(set), true, resize0, nil)
+		okR, wit := true, ""
+		for _, in := range w.order {
+			if isReturn(in) {
+				okR, wit = false, w.witness(P, in)
+			}
+		}
+		c.judge(okR, "R-SET-REPLACES", "heapq.(*Queue).Set:resize", set.Pos(), "on every path the buffer is resized to len(vs) before returning", "Set can return without resizing the buffer to len(vs): the previous contents are kept ("+wit+")")
+		// the copy: on every path (except len(vs)==0) copy(q.data, vs) or equivalent
+		isCopy := func(in ssa.Instruction) bool {
+			if call, ok := in.(*ssa.Call); ok {
+				if cp, ok := isBuiltinCall(call, "copy"); ok && isLoadOfField(cp.Call.Args[0], m.dataF) && cp.Call.Args[1] == ssa.Value(vs) {
+					return true
+				}
+			}
+			if st, ok := in.(*ssa.Store); ok {
+				if ap, ok := isBuiltinCall(st.Val, "append"); ok && len(ap.Call.Args) == 2 && ap.Call.Args[1] == ssa.Value(vs) {
+					return true
+				}
+			}
+			return false
+		}
+		okC, witC := mustPassToExitE(P, firstInstr(set), isCopy, emptyEdge)
+		c.judge(okC, "R-SET-REPLACES", "heapq.(*Queue).Set:copy", set.Pos(), "the new values are copied in on every path with len(vs) > 0", "Set can return without copying vs into the buffer ("+witC+")")
+	} else {
+		c.undecided("ANCHOR", "heapq.(*Queue).Set", 0, "not found")
+	}
 }
 
 // ---------------------------------------------------------------------------
